@@ -215,11 +215,23 @@ Definition minus_eye (A : bmat) : zmat :=
   zmk (bnr A) (bnc A) (fun i => let r := brow A i in
                         fun j => (b2z (nth j r false) - delta i j)%Z).
 
-Definition n_hop (m : mesh) (nodal : bool) (n : nat) (self_loop order1_only : bool)
+(* the repaired form of include_self_loop=False: the diagonal is removed
+   (setdiag(0) / masking), nothing is subtracted *)
+Definition zero_diag (A : bmat) : zmat :=
+  zmk (bnr A) (bnc A) (fun i => let r := brow A i in
+                        fun j => if Nat.eqb i j then 0%Z else b2z (nth j r false)).
+
+(* `zd`, `strict`, `total` below select between the behaviour of the unchanged
+   tree (false) and the repaired behaviour (true) at the three places where the
+   unchanged code violates the property (isolated vertices, edgeless graphs).
+   Which one the implementation follows is decided by the correspondence on
+   every run (harness/c13.py, by behaviour); both have their theorems. *)
+Definition n_hop (m : mesh) (nodal : bool) (n : nat) (self_loop order1_only zd : bool)
   : option zmat :=
   (* mode='elemental' ignores order1_only *)
   option_map (fun adj => let h := n_hop_bool adj n in
-                         if self_loop then b2zmat h else minus_eye h)
+                         if self_loop then b2zmat h
+                         else if zd then zero_diag h else minus_eye h)
              (adjacency m nodal (if nodal then order1_only else false)).
 
 Definition zsum (l : list Z) : Z := fold_right Z.add 0%Z l.
@@ -244,35 +256,37 @@ Definition edge_gradient_of (adj : bmat) : zmat :=
       | None => fun _ => 0%Z
       end).
 (* a graph without any edge r < c: np.concatenate([]) raises ValueError *)
-Definition edge_gradient (m : mesh) (nodal order1_only : bool) : option zmat :=
+Definition edge_gradient (m : mesh) (nodal order1_only total : bool) : option zmat :=
   match adjacency m nodal order1_only with
   | None => None
-  | Some adj => match upper_edges adj with [] => None | _ => Some (edge_gradient_of adj) end
+  | Some adj => if total then Some (edge_gradient_of adj)
+                else match upper_edges adj with [] => None | _ => Some (edge_gradient_of adj) end
   end.
 
 (* calculate_e2v_matrix: one column per stored entry of `adj - I`
    (include_self_loop=False) or of adj (True; the unchanged implementation
    raises AttributeError there), in row-major order; entry (r_k, k) = 1 *)
-Definition e2v_sources (adj : bmat) (self_loop : bool) : list nat :=
+Definition e2v_sources (adj : bmat) (self_loop strict : bool) : list nat :=
   if self_loop then map fst (bcoo adj)
+  else if strict then map fst (filter (fun p => negb (Nat.eqb (fst p) (snd p))) (bcoo adj))
   else map (fun t => fst (fst t)) (zcoo (minus_eye adj)).
-Definition e2v_of (adj : bmat) (self_loop : bool) : zmat :=
-  let src := e2v_sources adj self_loop in
+Definition e2v_of (adj : bmat) (self_loop strict : bool) : zmat :=
+  let src := e2v_sources adj self_loop strict in
   zmk (bnr adj) (length src) (fun v k => match nth_error src k with
       | Some r => if Nat.eqb v r then 1%Z else 0%Z
       | None => 0%Z
       end).
-Definition e2v (m : mesh) (nodal self_loop : bool) : option zmat :=
-  option_map (fun a => e2v_of a self_loop) (adjacency m nodal false).
+Definition e2v (m : mesh) (nodal self_loop strict : bool) : option zmat :=
+  option_map (fun a => e2v_of a self_loop strict) (adjacency m nodal false).
 
 (* -------------------------------------------- queries (correspondence) *)
 Inductive query :=
 | QInc (order1 : bool)
 | QAdj (nodal order1 : bool)
-| QHop (nodal : bool) (n : nat) (self_loop order1 : bool)
+| QHop (nodal : bool) (n : nat) (self_loop order1 zd : bool)
 | QLap (nodal order1 : bool)
-| QGrad (nodal order1 : bool)
-| QE2V (nodal self_loop : bool).
+| QGrad (nodal order1 total : bool)
+| QE2V (nodal self_loop strict : bool).
 
 Definition result := option (Z * Z * list (Z * Z * Z)).   (* shape, sorted triples *)
 
@@ -287,10 +301,10 @@ Definition run_query (m : mesh) (q : query) : result :=
   match q with
   | QInc o => option_map res_of_b (incidence m o)
   | QAdj nd o => option_map res_of_b (adjacency m nd o)
-  | QHop nd n sl o => option_map res_of_z (n_hop m nd n sl o)
+  | QHop nd n sl o zd => option_map res_of_z (n_hop m nd n sl o zd)
   | QLap nd o => option_map res_of_z (laplacian m nd o)
-  | QGrad nd o => option_map res_of_z (edge_gradient m nd o)
-  | QE2V nd sl => option_map res_of_z (e2v m nd sl)
+  | QGrad nd o tot => option_map res_of_z (edge_gradient m nd o tot)
+  | QE2V nd sl st => option_map res_of_z (e2v m nd sl st)
   end.
 
 Definition t3_eqb (a b : Z * Z * Z) : bool :=
